@@ -524,6 +524,200 @@ def _replay_simulate(ir, case):
     return worst > 1e-7, msg
 
 
+# ------------------------------------------------------------------------------------------
+# companion-form moments: get_acov / get_mean on a VAR whose coefficient matrices are SYMBOLS
+# ------------------------------------------------------------------------------------------
+def _moments_setup(ir, endo, order, intercept, values=None):
+    """a RedVAR object (estimated concretely so that it is populated) whose system matrices are then replaced: by symbols (values=None)
+    or by the given floats (replay)"""
+    n, N = len(endo), len(endo) * order
+    model, *_ = _sim_setup(ir, endo, (), order, intercept, ncol=order + 2 + order * n + 1)
+    v = model._variants[0]
+    if values is None:
+        A = np.empty((n, N), dtype=object)
+        for i in range(n):
+            for j in range(N):
+                A[i, j] = S.sym(f"A_{i}_{j}", Fraction(1 + ((2 * i + 3 * j) % 4), 8 * N))
+        c = np.array([S.sym(f"c_{i}", Fraction(1 + i, 4)) for i in range(n)], dtype=object) if intercept else None
+        Sg = np.empty((n, n), dtype=object)
+        for i in range(n):
+            for j in range(i, n):
+                Sg[i, j] = Sg[j, i] = S.sym(f"s_{i}_{j}", Fraction(1) if i == j else Fraction(1, 8))
+    else:
+        A = np.array([[values.get(f"A_{i}_{j}", (1 + ((2 * i + 3 * j) % 4)) / (8 * N)) for j in range(N)] for i in range(n)], dtype=float)
+        c = np.array([values.get(f"c_{i}", (1 + i) / 4) for i in range(n)], dtype=float) if intercept else None
+        Sg = np.array([[values.get(f"s_{min(i, j)}_{max(i, j)}", 1.0 if i == j else 0.125) for j in range(n)] for i in range(n)], dtype=float)
+    v.system.A, v.system.c, v.system.cov_residuals = A, c, Sg
+    v._companion_T = None
+    v._eigenvalues = None
+    v._max_abs_eigenvalue = None
+    return model, v, A, c, Sg
+
+
+def _companion_oracle(A, Sg, n, order):
+    """companion transition matrix and covariance written from the definition: y_t = A_1 y_{t-1} + ... + A_p y_{t-p} + u_t"""
+    N = n * order
+    zero = S.const(0) if A.dtype == object else 0.0
+    one = S.const(1) if A.dtype == object else 1.0
+    T = np.full((N, N), zero, dtype=A.dtype)
+    Q = np.full((N, N), zero, dtype=A.dtype)
+    for i in range(n):
+        for j in range(N):
+            T[i, j] = A[i, j]            # first block row: [A_1 ... A_p]
+        for j in range(n):
+            Q[i, j] = Sg[i, j]
+    for i in range(n, N):
+        T[i, i - n] = one                # y_{t-l} is copied down one block
+    return T, Q
+
+
+def check_moments(run, ir, endo, order, intercept, up_to=3):
+    """RedVAR.get_acov(up_to_order) and get_mean() are those of the companion form, for ALL coefficient matrices: the Lyapunov solver and the
+    linear solve are replaced by their contracts (fresh symbols), the arguments they receive are compared with the companion form built
+    from the definition, and C_k must be the top-left block of T^k Omega"""
+    from irispie.red_vars import _variants as rv
+    import scipy
+    n, N = len(endo), len(endo) * order
+    key = f"moments:endo={len(endo)}:order={order}:intercept={intercept}:up_to={up_to}"
+    case = dict(kind="moments", endo=list(endo), order=order, intercept=intercept, up_to=up_to)
+    finding = "redvar:moments"
+    model, v, A, c, Sg = _moments_setup(ir, endo, order, intercept)
+    calls = dict(lyap=[], solve=[])
+
+    def lyap(T_, Q_, *a, **k):
+        T_, Q_ = np.asarray(T_), np.asarray(Q_)
+        Om = np.empty((N, N), dtype=object)
+        for i in range(N):
+            for j in range(i, N):
+                Om[i, j] = Om[j, i] = S.sym(f"Om_{i}_{j}", Fraction(2 if i == j else 1, 4))
+        calls["lyap"].append((T_, Q_, Om))
+        return Om
+
+    def solve(M_, r_):
+        M_, r_ = np.asarray(M_), np.asarray(r_)
+        mm = np.array([S.sym(f"mean_{i}", Fraction(1 + i, 2)) for i in range(M_.shape[0])], dtype=object)
+        calls["solve"].append((M_, r_, mm))
+        return mm
+    sl = npproxy.SubProxy(scipy.linalg, {"solve_discrete_lyapunov": lyap})
+    sp = npproxy.SubProxy(scipy, {"linalg": sl})
+    proxy = npproxy.Proxy(linalg=npproxy.SubProxy(np.linalg, {"solve": solve}))
+    try:
+        with npproxy.installed(proxy, rv, extra=[(rv, "_sp", sp)]), S.Path() as path:
+            acov = model.get_acov(up_to_order=up_to)
+            mean = model.get_mean()
+    except S.SymbolicBranchError:
+        raise
+    except Exception as exc:
+        run.counterexample(key, finding + ":raises", f"get_acov/get_mean raises {type(exc).__name__}: {str(exc)[:140]}", dict(case, values={}))
+        return
+    problems, eqs = [], []
+
+    def same(label, X, Y):
+        X, Y = np.asarray(X, dtype=object), np.asarray(Y, dtype=object)
+        if X.shape != Y.shape:
+            problems.append(f"{label}: shape {X.shape} vs {Y.shape}")
+            return
+        for idx in np.ndindex(*X.shape):
+            eqs.append((f"{label}{list(idx)}", S.const(X[idx]).t - S.const(Y[idx]).t))
+    if len(calls["lyap"]) != 1:
+        problems.append(f"the Lyapunov solver was called {len(calls['lyap'])} times")
+    else:
+        T_arg, Q_arg, Om = calls["lyap"][0]
+        T_or, Q_or = _companion_oracle(A, Sg, n, order)
+        same("companion_T", T_arg, T_or)
+        same("companion_sigma", Q_arg, Q_or)
+        if len(acov) != up_to + 1:
+            problems.append(f"{len(acov)} autocovariance matrices returned for up_to_order={up_to}")
+        else:
+            Bk = Om
+            for k in range(up_to + 1):
+                same(f"C_{k}", acov[k], Bk[:n, :n])
+                Bk = T_or @ Bk
+    if intercept:
+        if len(calls["solve"]) != 1:
+            problems.append(f"the linear solver was called {len(calls['solve'])} times for the mean")
+        else:
+            M_arg, r_arg, mm = calls["solve"][0]
+            Msum = np.full((n, n), S.const(0), dtype=object)
+            for i in range(n):
+                for j in range(n):
+                    Msum[i, j] = (S.const(1) if i == j else S.const(0)) - sum((A[i, l * n + j] for l in range(order)), S.const(0))
+            same("mean_matrix", M_arg, Msum)
+            same("mean_rhs", r_arg, c)
+            same("mean", mean, mm)
+    else:
+        same("mean", mean, np.full((n,), S.const(0), dtype=object))
+    if problems:
+        run.counterexample(key, finding, "; ".join(problems)[:300], dict(case, values={}))
+        return
+    # domain of the witness: a stable VAR (row sums of |A| <= 1/2) with a positive definite residual covariance, so that the replay's own
+    # Lyapunov solve is well posed; the identities themselves are decided for these values
+    dom = [path.condition()]
+    for i in range(n):
+        for j in range(N):
+            dom.append(z3.And(A[i, j].t >= -Fraction(1, 2 * N), A[i, j].t <= Fraction(1, 2 * N)))
+        for j in range(i, n):
+            dom.append(z3.And(Sg[i, j].t >= 1, Sg[i, j].t <= 2) if i == j else z3.And(Sg[i, j].t >= -Fraction(1, 4), Sg[i, j].t <= Fraction(1, 4)))
+    if intercept:
+        dom += [z3.And(ci.t >= Fraction(1, 8), ci.t <= 1) for ci in c]
+    r0, _ = run.check_sat(dom, timeout_ms=30000)
+    if r0 != "sat":
+        run.unknown(key, f"reachability witness {r0}")
+        return
+    run.reach_ok += 1
+    res, mdl = run.check_sat(dom + [z3.Or(*[t != 0 for _, t in eqs])], timeout_ms=120000, nl=True)
+    if res == "unsat":
+        if len(run.samples) < 12:
+            run.samples.append({"obligation": key, "verdict": "unsat: the solvers receive the companion form built from the definition, C_k is the top-left block of T^k Omega, "
+                                "the mean solves (I - sum A_j) m = c -- exact polynomial identities in the coefficient symbols", "claims": len(eqs)})
+        run.ok(key)
+    elif res == "sat":
+        names = sorted([f"A_{i}_{j}" for i in range(n) for j in range(N)] + [f"s_{i}_{j}" for i in range(n) for j in range(i, n)] + ([f"c_{i}" for i in range(n)] if intercept else []))
+        vals = model_values(mdl, names)
+        bad = []
+        for labl, t in eqs:
+            try:
+                d = mdl.eval(t, model_completion=True)
+                if not (z3.is_rational_value(d) and d.numerator_as_long() == 0):
+                    bad.append(labl)
+            except Exception:
+                pass
+        run.counterexample(key, finding, f"moments are not those of the companion form: {bad[:5]}",
+                           dict(case, bad=bad[:8], values={k_: [x.numerator, x.denominator] for k_, x in vals.items()}))
+    else:
+        run.unknown(key, f"solver {res}")
+
+
+def _replay_moments(ir, case):
+    import scipy.linalg
+    endo, order, intercept, up_to = tuple(case["endo"]), case["order"], case["intercept"], case["up_to"]
+    n, N = len(endo), len(endo) * order
+    vals = {k: float(Fraction(a, b)) for k, (a, b) in case.get("values", {}).items()}
+    model, v, A, c, Sg = _moments_setup(ir, endo, order, intercept, values=vals)
+    try:
+        acov = model.get_acov(up_to_order=up_to)
+        mean = np.asarray(model.get_mean(), dtype=float)
+    except Exception as exc:
+        return True, f"raises {type(exc).__name__}: {exc}"
+    T, Q = _companion_oracle(A, Sg, n, order)
+    Om = scipy.linalg.solve_discrete_lyapunov(T, Q)
+    worst, msg = 0.0, "moments are those of the companion form"
+    if len(acov) != up_to + 1:
+        return True, f"{len(acov)} autocovariance matrices returned for up_to_order={up_to}"
+    Bk = Om
+    for k in range(up_to + 1):
+        d = float(np.max(np.abs(np.asarray(acov[k], dtype=float) - Bk[:n, :n])))
+        if d > worst:
+            worst, msg = d, f"C_{k} differs from the top-left block of T^{k} Omega by {d!r}"
+        Bk = T @ Bk
+    want = np.linalg.solve(np.eye(n) - sum(A[:, l * n:(l + 1) * n] for l in range(order)), c) if intercept else np.zeros(n)
+    d = float(np.max(np.abs(mean - want)))
+    if d > worst:
+        worst, msg = d, f"mean {mean!r} vs {want!r}"
+    return worst > 1e-8, msg
+
+
+
 def main(run):
     ir = load_irispie()
     run.extra["proxy_selftest_checks"] = npproxy.selftest()
@@ -537,8 +731,11 @@ def main(run):
                   "simulate: coefficients come from a concrete estimate (floats); initial conditions, exogenous data and residuals are symbols"]
     run.functions_encoded += ["red_vars._simulators.{Inlay.simulate,_simulate,_simulate_exogenous_impact}, fords.simulators.{simulate_flat,get_init_xi}, red_vars._variants (companion matrices), "
                               "red_vars._invariants._populate_solution_vectors (executed)"]
+    run.stubs += ["moments: scipy.linalg.solve_discrete_lyapunov and numpy.linalg.solve -> fresh symbols (their arguments are compared with the companion form built from the definition)"]
+    run.functions_encoded += ["red_vars._variants.Variant.{get_acov,get_mean,companion_T,_populate_companion_T,_get_companion_sigma}, red_vars.main.RedVAR.{get_acov,get_mean}"]
+    run.bounds["moments"] = "1-2 (thorough: 3) endogenous variables, order 1-2 (thorough: 3), intercept on/off, autocovariances up to order 3 (thorough: 4); every coefficient, intercept and covariance entry a symbol"
     run.outside += ["'noise-free data return the generating VAR' (needs uniqueness of the solve, i.e. LAPACK)", "prior dummy observations",
-                    "companion-form mean/eigenvalues/acov (LAPACK eig)", "estimation with several variants (simulate is checked with 2 variants), resampling"]
+                    "eigenvalues of the companion form (LAPACK eig; the companion matrix itself is decided)", "estimation with several variants (simulate is checked with 2 variants), resampling"]
     for args in _structures(run.tier):
         try:
             check_structure(run, ir, *args)
@@ -561,11 +758,20 @@ def main(run):
             run.unknown(f"simulate_variants:{endo}:{exo}:{order}", exc)
         except Exception as exc:
             run.error(f"simulate_variants:{endo}:{exo}:{order}", exc)
+    for (endo, order, intercept) in ((("a",), 1, True), (("a", "b"), 1, True), (("a",), 2, False), (("a", "b"), 2, True)) + (((("a", "b"), 3, True), (("a", "b", "d"), 2, True)) if run.tier == "thorough" else ()):
+        try:
+            check_moments(run, ir, endo, order, intercept, up_to=3 if run.tier == "quick" else 4)
+        except S.SymbolicBranchError as exc:
+            run.unknown(f"moments:{endo}:{order}", exc)
+        except Exception as exc:
+            run.error(f"moments:{endo}:{order}", exc)
     run.extra["exhaustive"] = True
 
 
 def replay(case):
     ir = load_irispie()
+    if case.get("kind") == "moments":
+        return _replay_moments(ir, case)
     if case.get("kind") == "simulate":
         return _replay_simulate(ir, case)
     if case.get("kind") == "simulate_variants":
